@@ -71,7 +71,7 @@ func (w *world) doHandler(o opT) string {
 func runHandler(res *vh.Result, cases *vh.Cases, r *vh.Rand, o *vh.Opts) {
 	n := 400
 	if o.Thorough() {
-		n = 8000
+		n = 6000
 	}
 	hs0, _ := corpus()
 	ok := script{GP: 0, MK: 0, COK: true, PO: 0, PM: 1}
